@@ -131,6 +131,17 @@ CHECKS = {
             "optimality of the greedy matching and behaviour for crossing systems beyond these invariants are not decided.",
             "custom ast typestate/pairing rules (store provenance, acquire-release pairing, sibling constant agreement)",
             "DESIGN.md section 4 C19"),
+    "C14": (True, "other",
+            "Decides the sphere-aware and convention-handling structure of station selection: the longitude difference is "
+            "folded into [0,180] before entering the distance; provenance of box bounds (min - tol may only be a lower bound, "
+            "max + tol only an upper one, per axis; the wrapped branch's genuine defect is a known finding); the three "
+            "selectors agree on construction, swap-back of output longitudes and site renumbering; dispatcher table and "
+            "ValueError; inverse-distance case analysis (1/d, zero-distance short cut, masking condition with its exception, "
+            "normalisation); tolerance placement; strict '> 180' convention swap; no cached station coordinates / input edits.",
+            "minimality of the selected station, numerical weights and which stations fall in a box for given data are not "
+            "decided.",
+            "custom ast structural rules (bound-provenance analysis, sibling cross-check, branch case analysis) + shared effect summaries",
+            "DESIGN.md section 4 C14"),
 }
 
 NA_DEFAULT = "check under construction in this build round (see DESIGN.md section 8)"
